@@ -250,6 +250,8 @@ type exec struct {
 	cbid   bidT
 	cslots []*types.Vote
 	hasC   bool
+	evA    *pvote
+	evB    *pvote
 }
 
 func (P) NewExec() hx.Executor {
@@ -384,6 +386,8 @@ func (e *exec) commit() *types.Commit {
 func (e *exec) Exec(op string) string {
 	toks := hx.Tokens(op)
 	switch toks[0] {
+	case "evvote", "dupev":
+		return e.dupevOp(toks)
 	case "case":
 		*e = exec{ids: map[*types.Vote]int{}}
 		return "ok"
